@@ -1,0 +1,9 @@
+//go:build verif
+// +build verif
+
+package fileutil
+
+//@ property C05
+
+//@ func ZeroToEnd(f *os.File) error
+//@   trusted file-system call; no effect on modelled memory
